@@ -603,6 +603,21 @@ func checkEndpointTypes(r *Report, p *Prog) {
 					why = "the check is skipped depending on " + an
 					stored = false
 				}
+				// and no successful exit goes around it: with the attribute's own presence tests left aside, accepting
+				// implies that the check was reached (an error path of an earlier step that returns a value which may
+				// be nil - `return d.Skip()` - leaves the attribute as decoded, unchecked)
+				if stored {
+					need := reach
+					for _, an := range B.Support(reach) {
+						if ai := a.Atoms[an]; ai != nil && strings.Contains(an, "."+loc) && (ai.Kind == "empty" || ai.Kind == "isnil") {
+							need = B.Exists(need, an)
+						}
+					}
+					if !B.Implies(accept, need) {
+						why = "UnmarshalXML can succeed without reaching the check: " + firstCube(B, B.And(accept, B.Not(need)))
+						stored = false
+					}
+				}
 				if stored {
 					ok = true
 				}
